@@ -68,6 +68,17 @@ def template_family():
                                   ([["transform", shape_tf, 0]] if shape_tf else [])}
                     docs.append({"vb": [0, 0, 16, 16], "view": [0, 0, 16, 16], "root": [],
                                  "nodes": [dict(x) for x in order] + [rect]})
+    # a short gradient vector in bounding-box units, shifted by 1/64 of the box (smaller than the document's
+    # size-relative tolerance, larger than what rounds to zero): moves every colour by 8 % of the ramp
+    for tq in ([64, 0, 0, 64, 1, 0, 64], [64, 0, 0, 64, 0, 1, 64], [64, 0, 0, 64, -1, 1, 64]):
+        for vec in (([2, 5, 0], [0, 1, 0], [3, 5, 0], [0, 1, 0]), ([0, 1, 0], [2, 5, 0], [0, 1, 0], [3, 5, 0])):
+            for shape_tf in ([], [["translate", 0, 4]], [["scale", 1, 1, 2]]):
+                at = [["gradientUnits", "objectBoundingBox", 0], ["x1", vec[0], 0], ["y1", vec[1], 0], ["x2", vec[2], 0],
+                      ["y2", vec[3], 0], ["gradientTransform", [["matrixq"] + tq], 0]]
+                docs.append({"vb": [0, 0, 16, 16], "view": [0, 0, 16, 16], "root": [], "nodes": [
+                    {"d": 1, "tag": "linearGradient", "id": "s", "at": at, "g": stops, "ref": ""},
+                    {"d": 1, "tag": "rect", "id": "", "g": [2, 2, 10, 5, -1, -1], "ref": "",
+                     "at": [["fill", "url(#s)", 0], ["fillref", "s", 0]] + ([["transform", shape_tf, 0]] if shape_tf else [])}]})
     # focal points and centres given as percentages of a NON-SQUARE viewport (x: of its width, y: of its
     # height), user space units, on transformed and untransformed shapes
     for fx in (None, [25, 1, 1], [10, 1, 0]):
